@@ -6,6 +6,7 @@ CONSTANTS
   Paths = {"a", "b"}
   DEV_GlobalPrecision = FALSE
   DEV_AccumulatingRoot = FALSE
+    DEV_NoTruncate = FALSE
 VIEW View
 PROPERTY PropOwnInputs
 INVARIANT InvFiles
